@@ -174,7 +174,13 @@ fn run_cli(dir: &PathBuf, case: &Case, inputs: &[PathBuf], cfg: Option<Cfg>, idx
     }
     match cfg {
         Some(c) => {
-            cmd.arg("--batch-size").arg(c.batch.to_string()).arg("--fd-limit").arg(c.fd.to_string()).arg("--threads").arg(c.threads.to_string());
+            // threads == 0 stands for "no tuning options at all": the tool's own defaults
+            if c.threads > 0 {
+                cmd.arg("--batch-size").arg(c.batch.to_string()).arg("--fd-limit").arg(c.fd.to_string()).arg("--threads").arg(c.threads.to_string());
+            }
+            if c.sched % 5 == 1 {
+                cmd.arg("--keep-tmp-dir");
+            }
             // (`--tmp-dir` is declared as a boolean flag in this CLI and cannot take a value)
             cmd.env("TMPDIR", &tmp);
             cmd.env("FST_VERIF_SCHED_SEED", c.sched.to_string());
@@ -188,6 +194,7 @@ fn run_cli(dir: &PathBuf, case: &Case, inputs: &[PathBuf], cfg: Option<Cfg>, idx
     }
     cmd.env("FST_VERIF_TRACE", &trace);
     let desc = || match cfg {
+        Some(c) if c.threads == 0 => format!("default options sched-seed={}{}", c.sched, piped.map(|n| format!(" input #{} on stdin", n)).unwrap_or_default()),
         Some(c) => format!("batch-size={} fd-limit={} threads={} sched-seed={}{}", c.batch, c.fd, c.threads, c.sched, piped.map(|n| format!(" input #{} on stdin", n)).unwrap_or_default() + if force { " --force over an existing 70000-byte output" } else { "" }),
         None => "--sorted".to_string(),
     };
@@ -412,7 +419,7 @@ fn cfgs_strategy(nrows: usize) -> impl Strategy<Value = Vec<Cfg>> {
     let n = nrows.max(1) as u32;
     let batch = prop_oneof![3 => Just(1u32), 3 => Just(2u32), 2 => Just(3u32), 1 => Just(5u32), 1 => Just(n), 1 => Just(n + 1), 1 => 1u32..=n.max(2)];
     let fd = prop_oneof![4 => Just(2u32), 2 => Just(3u32), 1 => Just(5u32), 1 => Just(15u32)];
-    let threads = prop_oneof![2 => Just(1u32), 2 => Just(2u32), 2 => Just(3u32), 1 => Just(8u32), 1 => Just(16u32)];
+    let threads = prop_oneof![2 => Just(1u32), 2 => Just(2u32), 2 => Just(3u32), 1 => Just(8u32), 1 => Just(16u32), 1 => Just(0u32)];
     proptest::collection::vec((batch, fd, threads, any::<u64>()).prop_map(|(batch, fd, threads, sched)| Cfg { batch, fd, threads, sched }), 3..=5)
 }
 
